@@ -935,3 +935,33 @@ Lemma repaired_witnesses :
   segAnswer true w_rep8 8000 (w_cfg 0 0) [w_code 3 0 500] "V300" None ByNumber 1 16037 200 = AStatus 500 /\
   segAnswer true w_rep8 8000 (w_cfg 0 0) [w_code 3 1 599] "V300" None ByNumber 1 16037 200 = AStatus 200.
 Proof. repeat split; vm_compute; reflexivity. Qed.
+
+(** * Generated subtitle tracks *)
+
+(** As the code is, a generated subtitle segment that no pattern schedules is answered 404 instead
+    of normally (testpic_2s, timesubsstpp_en, statuscode_[{cycle:8,rsq:1,code:503}], segment 40 is the
+    first of its cycle: not scheduled). *)
+Lemma timesubs_refuted :
+  scheduled w_rep2 [w_code 8 1 503] "timestpp-en" 40 200 = 200 /\
+  subsAnswerUnrepaired (w_cfg 0 0) [w_code 8 1 503] 100000 200 = AStatus 404.
+Proof. split; vm_compute; reflexivity. Qed.
+
+(** With the repair they are looked up in the reference track like audio with timescale 1000 and
+    sample duration 1, to which the request theorems apply; the same request then follows the schedule. *)
+Lemma timesubs_repaired_example :
+  map (fun n => segAnswer true w_rep2 8000 (w_cfg 0 0) [w_code 8 1 503] "timestpp-en" (Some (1000, 1)) ByNumber n 100000 200)
+      [40; 41; 42] = [AStatus 200; AStatus 503; AStatus 200] /\
+  segAnswer true w_rep2 8000 (w_cfg 0 0) [w_code 8 1 503] "timestpp-en" (Some (1000, 1)) ByTime 82000 100000 200 = AStatus 503.
+Proof. split; vm_compute; reflexivity. Qed.
+
+(** the schedule is the same under any two configurations *)
+Lemma schedule_independent_of_config r loopMS : wf r loopMS -> forall c1 c2 repID n codes,
+  0 <= startS c1 -> 0 <= startS c2 -> repDuration r < two64 -> Forall validCycle codes -> 0 <= n ->
+  (startS c1 + S r n) * 1000 < two63 -> (startS c2 + S r n) * 1000 < two63 -> ts r < two32 ->
+  statusLoop true r loopMS c1 repID (S r n) (ts r) (startNr c1 + n) codes =
+  statusLoop true r loopMS c2 repID (S r n) (ts r) (startNr c2 + n) codes.
+Proof.
+  intros W c1 c2 repID n codes H1 H2 HD Hv Hn Hb1 Hb2 Hts.
+  rewrite (statusLoop_repaired r loopMS W c1 repID n codes H1 HD Hv Hn Hb1 Hts).
+  rewrite (statusLoop_repaired r loopMS W c2 repID n codes H2 HD Hv Hn Hb2 Hts). reflexivity.
+Qed.
